@@ -20,6 +20,43 @@ def _module_env(fi):
             continue
     return env
 
+def helper_inliner(fi, depth=0):
+    """call hook: a call of a plain function defined in the same module is evaluated by interpreting that function too
+    (helpers extracted from a predicate stay inside the predicate language)"""
+    def hook(ev, call, env):
+        f = call.func
+        if not isinstance(f, ast.Name) or f.id in env:
+            return False, None
+        callee = fi.module.functions.get(f.id)
+        if callee is None or callee.cls or depth > 3:
+            return False, None
+        if any(isinstance(a, ast.Starred) for a in call.args) or any(k.arg is None for k in call.keywords):
+            raise Unsupported("star arguments in a call of %s" % f.id)
+        params = callee.positional_params
+        bound = {}
+        for i, a in enumerate(call.args):
+            if i >= len(params):
+                raise Unsupported("too many arguments for %s" % f.id)
+            bound[params[i]] = ev.eval(a, env)
+        for k in call.keywords:
+            bound[k.arg] = ev.eval(k.value, env)
+        for pname, dnode in callee.defaults().items():
+            if pname not in bound and dnode is not None:
+                bound[pname] = ev.eval(dnode, {})
+        missing = [p_ for p_ in params if p_ not in bound]
+        if missing:
+            raise Unsupported("call of %s without %s" % (f.id, missing))
+        sub = Evaluator(call_hook=helper_inliner(callee, depth + 1))
+        sub.steps = ev.steps
+        res = sub.run_function(callee.node, dict(_module_env(callee), **bound))
+        ev.steps = sub.steps
+        if res[0] == "raise":
+            from ..absint import Raised
+            raise Raised(res[1])
+        return True, res[1]
+    return hook
+
+
 SPEC = json.load(open(os.path.join(VERIF, "spec", "descriptors.json")))
 KINDS = SPEC["kinds"]
 PAIRS = {tuple(p) for p in SPEC["compatible_kind_pairs"]}
@@ -48,7 +85,7 @@ def tt_compatible(repo):
                     n += 1
                     left = descriptor(kl, lab[0], od[0])
                     right = descriptor(kr, lab[1], od[1])
-                    ev = Evaluator()
+                    ev = Evaluator(call_hook=helper_inliner(fi))
                     try:
                         res = ev.run_function(fi.node, dict(_module_env(fi), **{params[0]: left, params[1]: right, params[2]: legacy}))
                     except Unsupported as err:
@@ -92,7 +129,7 @@ def tt_complement(repo, two_element_lists=False):
                     lists += [[other, e], [e, other]]
                 for cand in lists:
                     n += 1
-                    ev = Evaluator()
+                    ev = Evaluator(call_hook=helper_inliner(fi))
                     try:
                         res = ev.run_function(fi.node, dict(_module_env(fi), **{params[0]: d, params[1]: list(cand)}))
                     except Unsupported as err:
